@@ -701,12 +701,61 @@ def _remove_stmt(root: ast.AST, st: ast.AST) -> None:
                 return
 
 
+# ----------------------------------------------------------------------------------------------------------------- renamed functions
+def body_digest(fn) -> str:
+    """Digest of a function's parameters and body (docstring and its own name left out): equal for a function that was only renamed."""
+    import hashlib
+    a = fn.args
+    params = [x.arg for x in a.posonlyargs + a.args + a.kwonlyargs] + [a.vararg.arg if a.vararg else "", a.kwarg.arg if a.kwarg else ""]
+    text = "|".join(params) + "#" + ";".join(ast.dump(st) for st in _body(fn))
+    # a recursive function mentions its own name
+    text = text.replace(f"id='{fn.name}'", "id='<self>'").replace(f"attr='{fn.name}'", "attr='<self>'")
+    return hashlib.sha1(text.encode("utf-8")).hexdigest()[:16]
+
+
+def known_digests(tree: ast.Module, modname: str) -> Dict[str, str]:
+    return {f"{modname}:{k}": body_digest(n) for k, n, _c, o in function_keys(tree) if o is None}
+
+
+def undo_renames(tree: ast.Module, modname: str, known: Set[str]) -> int:
+    """A function of the reviewed tree that is gone while a NEW function of the same module / class has exactly its parameters and body was
+    renamed: it gets its reviewed name back (definition and the references inside the module), so that rules anchored at it still find it."""
+    digests = roles.table().get("digests", {})
+    if not digests:
+        return 0
+    present = {f"{modname}:{k}": (n, c) for k, n, c, o in function_keys(tree) if o is None}
+    missing = {k: d for k, d in digests.items() if k.startswith(modname + ":") and k not in present}
+    if not missing:
+        return 0
+    done = 0
+    for key, (node, cls) in present.items():
+        if key in known or (node.name.startswith("__") and node.name.endswith("__")):
+            continue
+        d = body_digest(node)
+        cands = [k for k, dd in missing.items() if dd == d and (("." in k.split(":", 1)[1]) == (cls is not None))
+                 and (cls is None or k.split(":", 1)[1].split(".")[0] == cls)]
+        if len(cands) != 1:
+            continue
+        old = cands[0].split(":", 1)[1].split(".")[-1]
+        new = node.name
+        node.name = old
+        for x in ast.walk(tree):
+            if isinstance(x, ast.Name) and x.id == new and cls is None:
+                x.id = old
+            elif isinstance(x, ast.Attribute) and x.attr == new:
+                x.attr = old
+        del missing[cands[0]]
+        done += 1
+    return done
+
+
 # ----------------------------------------------------------------------------------------------------------------- entry point
 def apply(tree: ast.Module, modname: str) -> int:
     known = roles.table().get("known")
     if not known:
         return 0
     known = set(known)
+    undo_renames(tree, modname, known)
     entries = list(function_keys(tree))
     new_top: Dict[str, Helper] = {}
     new_methods: Dict[str, Dict[str, Helper]] = {}
